@@ -149,6 +149,9 @@ def r10_deref(text, *idents):
         pat = re.compile(r'(?<=[-+*/%=<>] )' + re.escape(ident) + r'\b(?!\()')
         text, k = pat.subn('*' + ident, text)
         n += k
+        pat2 = re.compile(r'(?<![*\w.&])' + re.escape(ident) + r'\b(?= [-+*/%] )')
+        text, k = pat2.subn('*' + ident, text)
+        n += k
     return text, n
 
 
